@@ -91,8 +91,9 @@ def check_decimal_like(kind, kw, v, text):
     target = abs(V) * scale
     unit = Fraction(1, 10 ** shown) if epart is None else Fraction(10) ** (int(epart) - shown)
     if places is None:
-        # automatic: no particular count asked; the text must still be the value to 15 significant digits
-        tol = max(unit / 2, abs(target) / Fraction(10) ** 14)
+        # automatic: no particular count asked, so the number of decimals shown is no licence to drop digits: the text must be the
+        # value to 15 significant digits (one more decimal order is allowed for float noise), however small the value is
+        tol = abs(target) / Fraction(10) ** 14
     else:
         tol = unit / 2
     if abs(mag - target) > tol:
